@@ -53,6 +53,12 @@ CLAIMED = {
             '<= k); cross-wind convexity step. Tie: bit-exact correspondence of whole trajectories with 0-4 wind segments.',
             'hand Lean model + induction over steps, bit-exact differential run of trajectories, metamorphic search on the real code',
             '5 C12'),
+    'C04': ('Theorems over the loop model: the stated reason is the first violated limit and the last row is the row of the violating '
+            'state; every state carried on respects the limits; limits never perturb earlier rows (one-step lemma + induction over '
+            'iterations: prefix of the run without the limit); enumeration of all ways a run can end. Termination itself is NOT proved '
+            '(fuel in the model; arithmetic core only) and is watched by a watchdog. Tie: bit-exact correspondence on limit configurations.',
+            'hand Lean model + induction over iterations, bit-exact differential run, truthfulness/prefix oracle + watchdog on the real code',
+            '5 C04'),
 }
 NOT_APPLICABLE = {}
 TODO_REASON = 'check not built yet in this round (planned, see DESIGN.md section 5)'
